@@ -75,6 +75,9 @@ type c19Access struct {
 	atomic bool
 	// locks of the CALLER that this function has released (non-deferred Unlock of a lock it did not take) before this point
 	dropped c19Mask
+	// per lock bit held locally: the Lock() statement that opened the section; source position of the access
+	secs *[64]token.Pos
+	pos  token.Pos
 }
 
 // A read-modify-write pair that must sit inside ONE critical section: inside Func, the call of Read and the call
@@ -821,7 +824,8 @@ func (w *c19Walker) expr(e ast.Expr, held c19Mask, wr map[ast.Node]bool) {
 			return true
 		case *ast.SelectorExpr:
 			if i, ok := w.tracked(x); ok {
-				a := c19Access{v: i, held: held, write: wr != nil && wr[x], dropped: w.dropped}
+				secs := w.lastLock
+				a := c19Access{v: i, held: held, write: wr != nil && wr[x], dropped: w.dropped, secs: &secs, pos: x.Pos()}
 				w.s.noteAccess(x.Pos(), i)
 				if m, ok := atomicBase[x]; ok {
 					a.atomic = true
@@ -834,7 +838,8 @@ func (w *c19Walker) expr(e ast.Expr, held c19Mask, wr map[ast.Node]bool) {
 		case *ast.Ident:
 			if i, ok := w.tracked(x); ok && c19Vars[i].Type == "" {
 				w.s.noteAccess(x.Pos(), i)
-				w.fn.accesses = append(w.fn.accesses, c19Access{v: i, held: held, write: wr != nil && wr[x], dropped: w.dropped})
+				secs := w.lastLock
+				w.fn.accesses = append(w.fn.accesses, c19Access{v: i, held: held, write: wr != nil && wr[x], dropped: w.dropped, secs: &secs, pos: x.Pos()})
 				w.fn.seq = append(w.fn.seq, c19Ev{'a', len(w.fn.accesses) - 1})
 			}
 		}
@@ -1596,6 +1601,51 @@ func (s *c19Scan) headDecisionRows() ([]c19Row, string, error) {
 		out = append(out, c19Row{c19HeadDecision, fn, "r", held, key[0]})
 	}
 	return out, guard, nil
+}
+
+// ---------------------------------------------------------------- check-then-act splits
+//
+// For every tracked variable: a function that READS it in one critical section of the variable's lock and WRITES it
+// in ANOTHER critical section of the same lock later in the same function (the lock is released between the guarding
+// read and the write) is a check-then-act split: every access is guarded, yet check and update are not atomic.
+// Expected: none (`rmw-split <var> <func>` lines, committed list empty).
+
+type c19Split struct{ Var, Fn string }
+
+func (s *c19Scan) rmwSplits() []c19Split {
+	var out []c19Split
+	seen := map[c19Split]bool{}
+	for _, f := range s.all {
+		for vi, v := range c19Vars {
+			if s.nominal[vi] == "atomic" {
+				continue
+			}
+			bit := s.lockBit(s.nominal[vi])
+			i := bitIndex(bit)
+			if i < 0 {
+				continue
+			}
+			for _, r := range f.accesses {
+				if r.v != vi || r.write || r.held&bit == 0 || r.secs == nil {
+					continue
+				}
+				for _, w := range f.accesses {
+					if w.v != vi || !w.write || w.held&bit == 0 || w.secs == nil {
+						continue
+					}
+					if w.pos > r.pos && w.secs[i] != r.secs[i] {
+						k := c19Split{v.Name, f.name}
+						if !seen[k] {
+							seen[k] = true
+							out = append(out, k)
+						}
+					}
+				}
+			}
+		}
+	}
+	sort.Slice(out, func(i, j int) bool { return out[i].Var+out[i].Fn < out[j].Var+out[j].Fn })
+	return out
 }
 
 // c19AllVarNames: the shared variables of c19Vars followed by the read-modify-write records of c19RMWs
